@@ -78,6 +78,17 @@ Theorem seq_edits_faithful : forall route_size d a b ca ea cb eb df,
 Proof. exact seq_edits_faithful_all_lemma. Qed.
 Print Assumptions seq_edits_faithful.
 
+(** What is NOT true of the code as it is: that every entry of a replace payload carries its two elements.
+    When the route table fills up, the concatenation of the per-round scripts is not minimal and the merge
+    can pair two equal elements, which diffReplacements renders as None: both elements vanish from the
+    reported diff.  Witness in the model with a route table of 6 points (the harness exhibits the same on the
+    real code with its 2 000 000 points, on a 1500 x 1700 pair of tuples). *)
+Theorem seq_replacements_carry_sides_refuted :
+  exists route_size a b edits ds,
+    diff route_size a b = Ok (Some (DSlice a b edits)) /\ In (SRepl ds) edits /\ In None ds.
+Proof. exact replace_none_exists. Qed.
+Print Assumptions seq_replacements_carry_sides_refuted.
+
 (** For mappings there is an edit exactly for each key added, removed or changed, of the right kind and
     carrying the right values ... *)
 Theorem mapping_edits_exact : forall route_size d old new df,
